@@ -419,7 +419,7 @@ static Value caseBallMig(const Value& c)
   int distType = 1;
   if (kind != "none")
   {
-    dmax = {c.at("dmaxa").i() / 2., c.at("dmaxb").i() / 2.};
+    for (auto& w : c.at("dmax").arr) dmax.push_back(w.i() / 2.);   // one maximum distance per axis
     distType = (kind == "l1") ? 1 : 2;
   }
   Value runs[2];
